@@ -58,4 +58,31 @@ theorem session_total_tables (ns : Bytes) (hns : ns.length = 32) (validate : Ent
   · rw [← h1.eq]; exact htot.1
   · rw [← h2.eq]; exact htot.2
 
+/-- **The following session is silent (table-backed replicas).** Two table stores that hold the
+same entries for the document — e.g. after the session of `session_total_tables` — : the initial
+message of one is answered with silence by the other, nothing is inserted, and the answering
+store still holds the same entries. -/
+theorem second_session_silent_tables (ns : Bytes) (hns : ns.length = 32) (validate : Entry → Bool)
+    (statusOf : Entry → Status) (hv : ∀ e, validate e = true → e.ns = ns ∧ Wf e)
+    (ta tb : T) (inva : TablesInv ta) (invb : TablesInv tb) (heq : nsRecords ta ns = nsRecords tb ns)
+    (cfg : Config) :
+    let st := processMessage (tableOps ns) cfg validate statusOf tb (initialMessage (tableOps ns) ta)
+    st.reply = none ∧ st.inserted = [] ∧ nsRecords st.store ns = nsRecords tb ns := by
+  intro st
+  have rela : Rel ns ta (nsRecords ta ns) := ⟨inva, rfl⟩
+  have relb : Rel ns tb (nsRecords ta ns) := ⟨invb, heq⟩
+  obtain ⟨hinit, hmok⟩ := initialMessage_congr ns hns rela
+  obtain ⟨h1, h2, h3⟩ := processMessage_congr ns hns validate statusOf hv cfg relb _ hmok
+  have hsil := equal_replicas_first_message_is_last mapOps cfg validate statusOf (nsRecords ta ns)
+  simp only at hsil
+  have hst : st = processMessage (tableOps ns) cfg validate statusOf tb (initialMessage mapOps (nsRecords ta ns)) := by
+    show processMessage (tableOps ns) cfg validate statusOf tb (initialMessage (tableOps ns) ta) = _
+    rw [hinit]
+  rw [hst]
+  refine ⟨by rw [h1]; exact hsil.1, by rw [h2]; exact hsil.2, ?_⟩
+  -- the store: related to the ordered-map store after the same (silent) message, which is unchanged
+  have hmap : (processMessage mapOps cfg validate statusOf (nsRecords ta ns) (initialMessage mapOps (nsRecords ta ns))).store = nsRecords ta ns := by
+    simp [processMessage, initialMessage]
+  rw [← h3.eq, hmap, heq]
+
 end Tables
